@@ -422,25 +422,26 @@ func loadKnown() map[string]Known {
 // ---- replay / minimisation ----
 
 type Plan struct {
-	Property   string                   `json:"property"`
-	TreeDigest string                   `json:"tree_digest,omitempty"`
-	Seed       uint64                   `json:"seed"`
-	Index      uint64                   `json:"index"`
-	RunSeed    uint64                   `json:"run_seed"`
-	Tier       string                   `json:"tier"`
-	Kind       string                   `json:"kind"`
-	Mode       string                   `json:"mode"`
-	Pick       int                      `json:"pick"`
-	Free       bool                     `json:"free,omitempty"`
-	ColdFirst  bool                     `json:"cold_first,omitempty"`
-	Prelude    []uint64                 `json:"prelude,omitempty"`
-	Tasks      [][]json.RawMessage      `json:"tasks"`
-	Sched      map[string]interface{}   `json:"sched"`
-	Faults     []map[string]interface{} `json:"faults"`
-	ReplayMode bool                     `json:"replay_mode,omitempty"`
-	Schedule   []Seg                    `json:"schedule,omitempty"`
-	Violation  *Violation               `json:"violation,omitempty"`
-	Note       string                   `json:"note,omitempty"`
+	Property   string                     `json:"property"`
+	TreeDigest string                     `json:"tree_digest,omitempty"`
+	Seed       uint64                     `json:"seed"`
+	Index      uint64                     `json:"index"`
+	RunSeed    uint64                     `json:"run_seed"`
+	Tier       string                     `json:"tier"`
+	Kind       string                     `json:"kind"`
+	Mode       string                     `json:"mode"`
+	Pick       int                        `json:"pick"`
+	Free       bool                       `json:"free,omitempty"`
+	ColdFirst  bool                       `json:"cold_first,omitempty"`
+	PreWarm    map[string]json.RawMessage `json:"pre_warm,omitempty"` // (raw: 64-bit seeds do not survive float64)
+	Prelude    []uint64                   `json:"prelude,omitempty"`
+	Tasks      [][]json.RawMessage        `json:"tasks"`
+	Sched      map[string]interface{}     `json:"sched"`
+	Faults     []map[string]interface{}   `json:"faults"`
+	ReplayMode bool                       `json:"replay_mode,omitempty"`
+	Schedule   []Seg                      `json:"schedule,omitempty"`
+	Violation  *Violation                 `json:"violation,omitempty"`
+	Note       string                     `json:"note,omitempty"`
 }
 
 type Seg struct {
@@ -732,6 +733,52 @@ func minimise(bin string, p *Plan, key string, budget int, deadline time.Time) (
 			c := clonePlan(cur)
 			c.Tasks[t] = append(c.Tasks[t][:o], c.Tasks[t][o+1:]...)
 			if try(c) {
+				cur = c
+			}
+		}
+	}
+	// 2b. long-lived callers: no warm-up, then halve it while the violation persists
+	if cur.PreWarm != nil {
+		c := clonePlan(cur)
+		c.PreWarm = nil
+		if try(c) {
+			cur = c
+		}
+	}
+	rawInt := func(r json.RawMessage) int {
+		n, err := strconv.Atoi(strings.TrimSpace(string(r)))
+		if err != nil {
+			return -1
+		}
+		return n
+	}
+	for cur.PreWarm != nil && rawInt(cur.PreWarm["warm"]) > 1 {
+		c := clonePlan(cur)
+		c.PreWarm["warm"] = json.RawMessage(strconv.Itoa(rawInt(cur.PreWarm["warm"]) / 2))
+		if !try(c) {
+			break
+		}
+		cur = c
+	}
+	for t := 0; t < len(cur.Tasks); t++ {
+		for o := 0; o < len(cur.Tasks[t]); o++ {
+			for {
+				var spec map[string]json.RawMessage
+				if json.Unmarshal(cur.Tasks[t][o], &spec) != nil || spec["warm"] == nil || rawInt(spec["warm"]) < 1 {
+					break
+				}
+				w := rawInt(spec["warm"]) / 2
+				if w == 0 {
+					delete(spec, "warm")
+				} else {
+					spec["warm"] = json.RawMessage(strconv.Itoa(w))
+				}
+				raw, _ := json.Marshal(spec)
+				c := clonePlan(cur)
+				c.Tasks[t][o] = raw
+				if !try(c) {
+					break
+				}
 				cur = c
 			}
 		}
